@@ -208,8 +208,18 @@ def make_env(ev):
         ok = l.r.same(r, ev.facts) or l.same(r.r, ev.facts)
         ev.obligations.append(Obligation("adjoint(caps)", (l, r), "l.r == r or l == r.r", ev.where, ok))
         return TD(Seq(), l + r)
+    def one_wire(kind, dom_of, cod_of):
+        def mk(l, r):
+            ok = ev.facts.eq(l.length, 1) and ev.facts.eq(r.length, 1)
+            ev.obligations.append(Obligation("one-wire(%s)" % kind, (l, r), "the %s box takes one-wire types only (use Diagram.%s for types)" % (kind, kind.lower() + "s" if kind != "Swap" else "swap"),
+                                             ev.where, ok))
+            return TD(dom_of(l, r), cod_of(l, r))
+        return Closure(mk)
     D = Obj("Factory", id=Closure(lambda t: TD(t, t)), cups=Closure(cups), caps=Closure(caps), swap=Closure(swap_contract))
-    return {"Id": Closure(lambda t=Seq(): TD(t, t)), "Diagram": D}
+    return {"Id": Closure(lambda t=Seq(): TD(t, t)), "Diagram": D,
+            "Swap": one_wire("Swap", lambda l, r: l + r, lambda l, r: r + l),
+            "Cup": one_wire("Cup", lambda l, r: l + r, lambda l, r: Seq()),
+            "Cap": one_wire("Cap", lambda l, r: Seq(), lambda l, r: l + r)}
 
 
 def forks(atoms):
@@ -217,6 +227,16 @@ def forks(atoms):
         f = Facts()
         for a, c in zip(atoms, choice):
             f = f.with_eq(a.length, 0) if c == 0 else f.extend(a.length - 1)
+        yield choice, f
+
+
+def forks2(pairs):
+    """emptiness cases per operand type: all its objects have empty images / all have non-empty images"""
+    for choice in itertools.product((0, 1), repeat=len(pairs)):
+        f = Facts()
+        for pair, c in zip(pairs, choice):
+            for a in pair:
+                f = f.with_eq(a.length, 0) if c == 0 else f.extend(a.length - 1)
         yield choice, f
 
 
@@ -299,8 +319,9 @@ def functor_branch(ctx, fn, self_, p, kname):
 def check_translation(ctx):
     m = ctx.model
     rules, ffn, self_, p = extract_slash_rules(ctx)
-    A, B, C = Atom("A"), Atom("B"), Atom("C")
-    a, b, c = (BT([BOb("atom", image=Seq.atom(X), name=X.name.lower())]) for X in (A, B, C))
+    # each generic operand type consists of two objects (so that slices such as dom[1:2] differ from dom[1:])
+    A, B, C = (Atom("A1"), Atom("A2")), (Atom("B1"), Atom("B2")), (Atom("C1"), Atom("C2"))
+    a, b, c = (BT([BOb("atom", image=Seq.atom(X), name=X.name.lower()) for X in pair]) for pair in (A, B, C))
     # generic arguments of each box constructor (the instances its guards let through)
     generic = {
         "FA": [over(a, b)], "BA": [under(a, b)],
@@ -329,7 +350,7 @@ def check_translation(ctx):
             raise AnalysisError("biclosed.%s / its functor branch outside the recognised idioms: %s" % (kname, e))
         sdom, scod = F(bdom, rules), F(bcod, rules)
         n_ok, probs = 0, []
-        for choice, facts in forks([A, B, C]):
+        for choice, facts in forks2([A, B, C]):
             try:
                 ev, out = run_method(ctx, method, routed, facts)
                 bad = [o for o in ev.obligations if not o.ok]
@@ -567,6 +588,18 @@ def check_ccg(ctx):
     shape.match(ctx, "R18.4", q + ":backslash", table.get("\\"), "cat2ty(R) >> cat2ty(L)", {l: "L", r: "R"}, mod=CCG, node=fn, sig="backslash",
                 required="X\\Y  |->  Y >> X  (argument Y on the left)")
     shape.match(ctx, "R18.4", q + ":slash", table.get("/"), "cat2ty(L) << cat2ty(R)", {l: "L", r: "R"}, mod=CCG, node=fn, sig="slash", required="X/Y  |->  X << Y")
+    helpers = {n.name: n for n in fn.body if isinstance(n, ast.FunctionDef)}
+    ctx.need({"unbracket", "remove_modifier", "split"} <= set(helpers), "cat2ty helper functions changed: %s" % sorted(helpers))
+    sp = helpers["split"]
+    sarg = sp.args.args[0].arg
+    shape.match(ctx, "R18.4", q + ".split:atomic", sp.body[-1].value if isinstance(sp.body[-1], ast.Return) else None, "(remove_modifier(s), None, None)", {sarg: "s"}, mod=CCG,
+                node=sp, sig="split-atomic", required="an atomic category loses its feature [..] (NP[nb] and NP are the same type)")
+    ub = helpers["unbracket"]
+    shape.match(ctx, "R18.4", q + ".unbracket", ret_expr(ub.body), "s[1:-1] if s[0] == '(' else s", {ub.args.args[0].arg: "s"}, mod=CCG, node=ub, sig="unbracket",
+                required="only the outer brackets are removed")
+    inner_ret = [r_ for r_ in ast.walk(sp) if isinstance(r_, ast.Return) and r_ is not sp.body[-1]]
+    shape.match(ctx, "R18.4", q + ".split:slash", inner_ret[0].value if inner_ret else None, "(unbracket(s[:i]), char, unbracket(s[i + 1:]))", {sarg: "s"}, mod=CCG, node=sp,
+                sig="split-slash", required="split at the first top-level slash")
     t2 = m.func(CCG + ".tree2diagram")
     rules = {}
     for st in ast.walk(t2):
@@ -595,4 +628,4 @@ def check(ctx):
     ctx.floor("R18.1", 20)
     ctx.floor("R18.2", 7)
     ctx.floor("R18.3", 6)
-    ctx.floor("R18.4", 7)
+    ctx.floor("R18.4", 10)
